@@ -2,6 +2,9 @@ import HapModel.Real.Std
 import HapModel.Real.R2Bound
 import HapModel.Real.Cubic
 import Mathlib.Analysis.InnerProductSpace.Basic
+import Mathlib.Tactic.NormNum
+import Mathlib.Tactic.Linarith
+import HapModel.Model.PhenoSim
 /-!
 Real-arithmetic property theorems (Mathlib), registered under the properties they serve.
 -/
@@ -61,5 +64,59 @@ theorem standardize_mean_zero {n : ℕ} (x : Fin n → ℝ) (hn : 0 < n) : mean 
 /-- … and variance 1 (when it is not constant) -/
 theorem standardize_var_one {n : ℕ} (x : Fin n → ℝ) (hn : 0 < n) (hv : var x ≠ 0) : var (standardize x) = 1 :=
   var_standardize x hn hv
+
+open PhenoSim in
+/-- documented: neither heritability nor environment → `1 - Σβ²` floored at 0 -/
+theorem noise_default (sumB2 varG : ℚ) :
+    noiseVar sumB2 none none varG = max (1 - sumB2) 0 := by
+  unfold noiseVar
+  simp only
+  split
+  · rename_i h
+    rw [sub_self, eq_comm]; exact max_eq_right (by linarith)
+  · rename_i h
+    exact (max_eq_left (by linarith)).symm
+
+open PhenoSim in
+/-- documented: otherwise `v·(1/h² − 1)` with `v` the given environment variance, else the variance of the genetic
+    component (1 if that is 0), and `h²` defaulting to 0.5 (only reachable when an environment variance is given) -/
+theorem noise_given (sumB2 varG : ℚ) (h2 env : Option ℚ) (hne : h2 ≠ none ∨ env ≠ none) :
+    noiseVar sumB2 h2 env varG =
+      (match env with | some e => e | none => if varG = 0 then 1 else varG) *
+      (1 / (match h2 with | some h => h | none => (1/2 : ℚ)) - 1) := by
+  unfold noiseVar
+  cases h2 with
+  | none =>
+    cases env with
+    | none => rcases hne with h | h <;> exact absurd rfl h
+    | some e => rfl
+  | some h => cases env <;> rfl
+
+open PhenoSim in
+/-- heritability 1 means no noise at all, whatever the environment -/
+theorem noise_zero_h1 (sumB2 varG : ℚ) (env : Option ℚ) : noiseVar sumB2 (some 1) env varG = 0 := by
+  unfold noiseVar; cases env <;> simp
+
+open PhenoSim in
+/-- the noise variance is never negative for heritabilities in (0,1] and non-negative variances -/
+theorem noise_nonneg (sumB2 varG : ℚ) (h2 env : Option ℚ) (hs : 0 ≤ sumB2) (hv : 0 ≤ varG)
+    (hh : ∀ h, h2 = some h → 0 < h ∧ h ≤ 1) (he : ∀ e, env = some e → 0 ≤ e) :
+    0 ≤ noiseVar sumB2 h2 env varG := by
+  unfold noiseVar
+  cases h2 with
+  | none =>
+    cases env with
+    | none => simp only; split <;> linarith
+    | some e => have := he e rfl; simp only; norm_num; linarith
+  | some h =>
+    obtain ⟨h0, h1⟩ := hh h rfl
+    have hk : 0 ≤ 1 / h - 1 := by
+      rw [sub_nonneg, le_div_iff₀ h0]; linarith
+    cases env with
+    | none =>
+      simp only
+      apply mul_nonneg _ hk
+      split <;> linarith
+    | some e => exact mul_nonneg (he e rfl) hk
 
 end C09R
